@@ -20,12 +20,17 @@ PLAN  = {"quick":    {"shards": 8, "parallel": 4, "cases": 24,   "timeout": 1500
          "thorough": {"shards": 8, "parallel": 4, "cases": 480,  "timeout": 7000}}
 REQUIRED = ["oracle.rebuild-same", "oracle.inproc-chunked-same", "oracle.multiproc-same", "observed.multiproc-evaluations",
             "observed.runs-with-2+-worker-pids", "observed.arrival-orders", "oracle.multiproc-after-earlier-run",
-            "observed.cases-with-experiment-seed-0"]
+            "observed.cases-with-experiment-seed-0", "observed.cases-with-materialized-environments"]
 ASSUMPTIONS = ["only deterministic picklable components; timing columns excluded", "processes <= 6",
                "seed=None (time seeded) filters are not generated"]
 
-def gen_case(rng, force_seed0=False):
+def gen_case(rng, force_seed0=False, force_materialized=False):
     spec = X.gen_spec(rng)
+    if force_materialized:
+        # interactions and their reward objects (keyed by float action features) exist before the work is shipped to workers
+        g = spec["groups"][0]
+        g.update(kind="linear", na=3, ncf=2, naf=2); g["filters"] = [f for f in g["filters"] if f[0] in ("shuffle_n", "take")] + [["materialize"]]
+        spec.pop("combine", None)
     if force_seed0:
         # the experiment seed 0 (falsy) with consumers of the experiment seed: a PMF learner under an unseeded SequentialCB
         spec["seed"] = 0; spec["lrns"][0]["kind"] = "stateful-pmf"; spec["vals"][0]["kind"] = "cb"
@@ -109,7 +114,8 @@ def run_shard(ctx):
     workdir = tempfile.mkdtemp(prefix=f"vf-c01-{ctx.shard}-")
     try:
         for i in range(ctx.n):
-            case = gen_case(ctx.rng, force_seed0=(i == 0))
+            case = gen_case(ctx.rng, force_seed0=(i == 0), force_materialized=(i == 1))
+            if any(f[0] == "materialize" for g in case["spec"]["groups"] for f in g["filters"]): ctx.count("observed.cases-with-materialized-environments")
             if case["spec"]["seed"] == 0: ctx.count("observed.cases-with-experiment-seed-0")
             try:
                 v = check_case(case, ctx, workdir)
